@@ -4,4 +4,5 @@ CONSTANT MaxNow = 2
 INVARIANT Equiv
 INVARIANT OnePassword
 INVARIANT NoncesUnique
+VIEW View
 CHECK_DEADLOCK FALSE
